@@ -92,3 +92,18 @@ Definition wa_impl_is_ansi (i : list N * wa_cfg * wa_body) : bool :=
 
 Definition wa_unix_impls_all_ansi : bool :=
   forallb wa_impl_is_ansi (filter (fun i => wa_on_unix (snd (fst i))) wa_impls).
+
+(* ---- vocabulary of the function translator (tools/gen_fn_wincon_ansi.py -> Generated/WinconAnsiFn.v) ----
+   Adapters; definitions only. *)
+
+(* what `render_fg()` / `render_bg()` / `Reset.render()` return, as far as `write!(stream, "{}", x)` looks at
+   it: the ONE fragment its Display impl hands to the formatter (shape-checked by tools/gen_wincon_ansi.py) *)
+Definition wa_display := list N.
+Definition wa_render_fg (c : ansi_color) : wa_display := ansi_fg_str c.
+Definition wa_render_bg (c : ansi_color) : wa_display := ansi_bg_str c.
+Definition wa_reset_render (r : unit) : wa_display := wa_reset_str.
+
+(* stream.write(data) *)
+Definition wa_raw_write (w : writer) (buf : list N) : writer * (N + ekind) := w_write w buf.
+(* write!(stream, "{}", x): std's Write::write_fmt sends the fragment to write_all *)
+Definition wa_raw_write_fmt1 (w : writer) (d : wa_display) : writer * (unit + ekind) := w_write_all w d.
